@@ -364,3 +364,32 @@ def d5(cx: Cx, ob: Ob) -> None:
             ob.violate(fn.qualname, fn.where, f"{hname} consults {wrong} (other side of the record)", detail="cross-side")
         if canon in fields and syn in fields and fields.index(canon) > fields.index(syn):
             ob.violate(fn.qualname, fn.where, f"{hname} consults synonyms before the canonical value", detail="order")
+
+
+@obligation("C12-X7", "IDX (shared with C01/C02): the lookup tables consulted by the clash test `new_uri_prefix in converter.reverse_prefix_map` of remap_uri_prefixes and rewire hold every name of every record, unconditionally and completely, on the constructor path and in _index (converters built incrementally answer like freshly built ones)", floor=4)
+def x7(cx: Cx, ob: Ob) -> None:
+    from .c01 import check_table_roles
+
+    check_table_roles(cx, ob, ["reverse_prefix_map", "trie"])
+
+
+@obligation("C12-X8", "the Record model stores prefixes and URI prefixes verbatim: no pydantic string transformation (strip / case folding / length limits) in its model_config or field declarations", floor=1)
+def x8(cx: Cx, ob: Ob) -> None:
+    from ..rules import record_verbatim
+
+    record_verbatim(cx, ob)
+
+
+@obligation("C12-X6", "LOOKUP None-discipline (shared with C02-D3): lookup results and str|None results are tested with `is None`, never by truthiness - the empty prefix, the empty URI prefix and the empty identifier are legitimate values", floor=40)
+def x6(cx: Cx, ob: Ob) -> None:
+    from ..rules import scan_none_discipline
+    from .c02 import none_scope
+
+    scan_none_discipline(cx, ob, none_scope(cx))
+
+
+@obligation("C12-X3", "no memoised derived values (cached_property / lru_cache) on Record, Reference or Converter objects: remap_uri_prefixes / rewire copy records with model_copy and read their URI prefixes afterwards", floor=3)
+def x3(cx: Cx, ob: Ob) -> None:
+    from ..rules import cached_derivations
+
+    cached_derivations(cx, ob)
